@@ -282,7 +282,7 @@ class FunctionValue:
                 if gname in env:
                     self.genv[gname] = env[gname]
         if isgen:
-            return env["__yields__"]
+            return OneShot(env["__yields__"])  # a generator object: its items can be taken once
         return None if r is FELL else r
 
 
@@ -442,6 +442,10 @@ class Evaluator:
                 f = self.funcs.get("__invert__")
                 if f:
                     return f(v)
+                if isinstance(v, int) and not isinstance(v, (bool, KInt)):
+                    return ~v
+            if isinstance(n.op, ast.UAdd) and isinstance(v, (int, float)) and not isinstance(v, bool):
+                return v
             raise Undecided(f"unary {norm(n)}")
         if isinstance(n, ast.BinOp):
             a, b = self.eval(n.left, env), self.eval(n.right, env)
@@ -849,6 +853,19 @@ class Evaluator:
                     return f(a, b)
         if isinstance(op, ast.Mult) and isinstance(a, list) and num(b):
             return a * b
+        if isinstance(op, ast.Mult) and isinstance(a, (str, tuple)) and num(b):
+            return a * b
+        plain_int = lambda x: isinstance(x, int) and not isinstance(x, KInt)  # noqa: E731  (bool included: True + True == 2)
+        if isinstance(op, (ast.Add, ast.Sub, ast.Mult)) and plain_int(a) and plain_int(b) and (isinstance(a, bool) or isinstance(b, bool)):
+            return {ast.Add: int(a) + int(b), ast.Sub: int(a) - int(b), ast.Mult: int(a) * int(b)}[type(op)]
+        if isinstance(op, ast.Mod) and isinstance(a, str) and _plain(b):
+            try:
+                return a % b
+            except (TypeError, ValueError) as ex:
+                raise Raised(f"{type(ex).__name__}({ex})")
+        if (a is None or b is None) and isinstance(op, (ast.Add, ast.Sub, ast.Mult, ast.FloorDiv, ast.Mod, ast.Div)) and (
+                _plain(a) and _plain(b)) and not (isinstance(op, ast.Mod) and isinstance(a, str)):
+            raise Raised("TypeError(unsupported operand type(s) for an arithmetic operator: NoneType)")
         raise Undecided(f"binary operation {norm(n)}")
 
     def compare(self, op: ast.cmpop, a: Any, b: Any) -> Any:
@@ -913,6 +930,11 @@ class Evaluator:
                 return a >= b
         if isinstance(a, tuple) and isinstance(b, tuple):
             return {ast.Lt: a < b, ast.LtE: a <= b, ast.Gt: a > b, ast.GtE: a >= b}[type(op)]
+        if isinstance(a, list) and isinstance(b, list) and _plain(a) and _plain(b) and isinstance(op, (ast.Lt, ast.LtE, ast.Gt, ast.GtE)):
+            try:
+                return {ast.Lt: lambda: a < b, ast.LtE: lambda: a <= b, ast.Gt: lambda: a > b, ast.GtE: lambda: a >= b}[type(op)]()
+            except TypeError as ex:
+                raise Raised(f"TypeError({ex})")
         if isinstance(op, (ast.Lt, ast.LtE, ast.Gt, ast.GtE)) and (a is None or b is None) and (
                 a is None or isinstance(a, (int, str, list, tuple))) and (b is None or isinstance(b, (int, str, list, tuple))):
             raise Raised("TypeError(ordering comparison with None)")
@@ -1100,6 +1122,8 @@ class Evaluator:
                     break
                 except _Continue:
                     continue
+            else:
+                self.block(st.orelse, env)  # the loop condition became false (no break)
         elif isinstance(st, ast.Expr):
             if isinstance(st.value, ast.Constant):
                 return
@@ -1151,6 +1175,7 @@ class Evaluator:
             env.setdefault("__globals__", set()).update(st.names)
             return
         elif isinstance(st, ast.Nonlocal):
+            env.setdefault("__globals__", set()).update(st.names)  # written back to the defining scope when the function ends
             return
         elif isinstance(st, ast.With):
             for item in st.items:
@@ -1261,8 +1286,9 @@ _SAFE_METHODS = {
     "list": ("append", "extend", "index", "count", "copy", "pop", "insert", "reverse", "sort", "remove"),
     "_Deque": ("append", "extend", "popleft", "appendleft", "pop"),
     "tuple": ("index", "count"),
-    "dict": ("get", "items", "keys", "values", "setdefault", "copy"),
-    "set": ("add", "copy", "discard", "remove", "update"),
+    "dict": ("get", "items", "keys", "values", "setdefault", "copy", "pop", "update", "clear"),
+    "set": ("add", "copy", "discard", "remove", "update", "union", "intersection", "difference", "issubset", "issuperset", "isdisjoint",
+            "clear", "symmetric_difference"),
 }
 
 
